@@ -6,7 +6,7 @@
 */
 #define NOBJ 8
 struct objslot { unsigned char *base; struct crypt_data *d; void *ra_data; int ra_size; };
-static struct objslot objs[NOBJ];
+static __thread struct objslot objs[NOBJ];
 
 static uint64_t sm64 (uint64_t *s)
 {
@@ -16,7 +16,7 @@ static uint64_t sm64 (uint64_t *s)
   return z ^ (z >> 31);
 }
 
-static int obj_quiet;
+static __thread int obj_quiet;
 static void (*crypt_suffix) (void);
 static void op_obj (int n, char **tok)
 {
@@ -58,7 +58,7 @@ static void op_crypt (int n, char **tok)
   int is_st = !strcmp (entry, "st");
   if (!is_st && !objs[id].d) { char *t[] = { "O", tok[2], "z", "0" }; obj_quiet = 1; op_obj (4, t); obj_quiet = 0; }
   struct crypt_data *d = is_st ? NULL : objs[id].d;
-  static struct crypt_data *snap;
+  static __thread struct crypt_data *snap;
   if (!snap) snap = malloc (sizeof *snap);
   if (d) memcpy (snap, d, sizeof *snap);
   char *ret = NULL; int e = 0, aborted = 0;
